@@ -115,6 +115,7 @@ suffix = AugmentationSpec(AugmentationType.suffix, "!", "")
 def marked_imports(specs, src):
     """[(statement text, tokens)] for the Import / ImportFrom nodes reported as augmented"""
     tracer = make_tracer(specs)
+    type(tracer).reset_bookkeeping()        # the tables are shared by all tracer classes: only the source parsed below is looked at
     with tracer.tracing_disabled():
         tracer.parse(src)
         found = []
